@@ -876,7 +876,11 @@ class HierarchicalMachine(Machine):
         tree = self.build_state_tree(listify(getattr(model, self.model_attribute)),
                                      self.state_cls.separator)
 
-        path = self._get_enum_path(state) if isinstance(state, Enum) else state.split(self.state_cls.separator)
+        if isinstance(state, Enum):
+            with self():  # an Enum state is resolved from the root scope, also while a nested scope is active
+                path = self._get_enum_path(state)
+        else:
+            path = state.split(self.state_cls.separator)
         for elem in path:
             if elem not in tree:
                 return False
